@@ -6,6 +6,7 @@ use std::panic::{catch_unwind, AssertUnwindSafe};
 
 use dolby_vision::rpu::dovi_rpu::DoviRpu;
 
+mod capi;
 mod ops;
 mod ops2;
 
